@@ -493,8 +493,16 @@ def _enc_int(v, n, signed, order, exc):
     if not (v.lo is not None and v.hi is not None and lo <= v.lo and v.hi <= hi):
         if fork(z3.Or(v.e < lo, v.e > hi)): raise exc
         v = clamp(v, lo, hi)
-    if signed and v.lo < 0:
+    sd = v.meta.get('sdec') if (isinstance(v, SymInt) and v.meta) else None
+    if signed and sd is not None and sd[1] == n:
+        v = sd[0]                 # v was decoded from the unsigned n-octet value sd[0]: its two's complement is sd[0]
+    elif signed and v.lo < 0:
         v = v + (1 << (8 * n)) if v.hi < 0 else clamp(ite(v < 0, v + (1 << (8 * n)), v), 0, (1 << (8 * n)) - 1)
+    cp = v.meta.get('comp') if (isinstance(v, SymInt) and v.meta) else None
+    if cp is not None and len(cp) == n:
+        out = list(cp)            # v is the big-endian composition of exactly these n octets
+        if order == 'little': out.reverse()
+        return out
     out = [(v >> (8 * (n - 1 - i))) & 0xff for i in range(n)]
     out = [x.conc() if isinstance(x, SymInt) and x.conc() is not None else x for x in out]
     for i, x in enumerate(out):
@@ -518,11 +526,16 @@ def _dec_int(it, signed, order):
         v = lift(0)
         for b in it:
             v = v * 256 + b
+        if v.conc() is None and all(isinstance(b, int) or (b.lo is not None and b.lo >= 0 and b.hi <= 255) for b in it):
+            v = SymInt(v.e, v.lo, v.hi, v.bits); v.meta = {'comp': list(it)}
     if signed:
         h = 1 << (8 * n - 1)
+        u = v
         if v.hi is not None and v.hi < h: pass
         elif v.lo is not None and v.lo >= h: v = v - (1 << (8 * n))
         else: v = clamp(ite(v >= h, v - (1 << (8 * n)), v), -h, h - 1)
+        if isinstance(v, SymInt) and v.conc() is None and v is not u:
+            v = SymInt(v.e, v.lo, v.hi, v.bits); v.meta = {'sdec': (u, n)}
     return v.conc() if v.conc() is not None else v
 
 
